@@ -120,7 +120,7 @@ def plan(tier, seed, workdir):
     import hashlib
     src = importlib.resources.files('bare_script.include').joinpath('diff.bare').read_text(encoding='utf-8')
     p.functions_encoded.append({'name': 'bare_script/include/diff.bare:diffLines (interpreted)', 'sha1': hashlib.sha1(src.encode()).hexdigest()[:12]})
-    alpha = ['a', 'b', ''] if tier == 'quick' else ['a', 'b', '', 'c']
+    alpha = ['a', 'a ', ''] if tier == 'quick' else ['a', 'a ', '', 'b']        # 'a ' differs from 'a' only by a trailing blank
     if tier == 'quick':
         pairs = [(a, b) for a in range(3) for b in range(3)] + [(3, 0), (0, 3), (3, 1), (1, 3)]
         timeout = 200
